@@ -218,7 +218,16 @@ FeatDeact(T) == \E p \in DOMAIN T, q \in DOMAIN T : /\ p[1] = q[1] /\ p[2] < q[2
 \* after a lies beyond b, so running sums give the (empty) line a -> b a negative width / stretch / shrink.
 FeatEmptyGlue(it) == \E a \in Legal(it), b \in Legal(it) : a < b /\ After(it, a) > b
                         /\ \E i \in b..(After(it, a) - 1) : IsGlue(it[i]) /\ <<it[i][2], it[i][3], it[i][4]>> # <<0, 0, 0>>
-Features(it, T) == (IF FeatDeact(T) THEN {"deact"} ELSE {}) \cup (IF FeatEmptyGlue(it) THEN {"emptyglue"} ELSE {})
+\* ... and, narrower, such a pair where the discarded glue beyond b has positive total stretch Sy: the running-sum
+\* "line" a -> b then has stretch -Sy < 0 and a negative ratio (l - (w_b - Sw)) / (-Sy); below -1 an implementation of
+\* the published algorithm deactivates the node at a, between -1 and 0 it accepts the empty line as feasible - either
+\* way the set of breakings it optimises over is not the one the definitions give
+FeatEmptyGlueDeact(it, l) ==
+  \E a \in Legal(it), b \in Legal(it) : a < b /\ After(it, a) > b
+     /\ LET Sw == SumF(it, 2, b, After(it, a) - 1)  Sy == SumF(it, 3, b, After(it, a) - 1) IN
+        Sy > 0 /\ l - (PenW(it, b) - Sw) > 0
+Features(it, T, l) == (IF FeatDeact(T) THEN {"deact"} ELSE {}) \cup (IF FeatEmptyGlue(it) THEN {"emptyglue"} ELSE {})
+                      \cup (IF FeatEmptyGlueDeact(it, l) THEN {"emptydeact"} ELSE {})
 \* the verdict fields the replay driver needs
 Verdict(it, l, T) ==
   LET NB == NotInfJudged(it, T)
@@ -234,7 +243,7 @@ Verdict(it, l, T) ==
                e |-> After(it, p[1]) > p[2]] : p \in DOMAIN T},      \* e: nothing between the two breakpoints
       brk |-> J,
       sf |-> SF # {}, mind |-> IF SF = {} THEN -1 ELSE MinOf({j.dhi : j \in SF}),
-      feat |-> Features(it, T),
+      feat |-> Features(it, T, l),
       complete |-> complete,
       allinf |-> complete,
       sshr |-> SS # {}, noshr |-> complete /\ \A j \in J : j.shr = "I", tstar |-> tstar]
@@ -251,7 +260,7 @@ VerdictP(it, l) ==
       ln |-> {},
       brk |-> {[b |-> x.j.b, cls |-> x.j.cls, shr |-> x.j.shr, dlo |-> x.j.dlo, dhi |-> x.j.dhi, mx |-> x.j.mx, ls |-> x.ls] : x \in J},
       sf |-> SF # {}, mind |-> IF SF = {} THEN -1 ELSE MinOf({x.j.dhi : x \in SF}),
-      feat |-> (IF FeatEmptyGlue(it) THEN {"emptyglue"} ELSE {}),
+      feat |-> (IF FeatEmptyGlue(it) THEN {"emptyglue"} ELSE {}) \cup (IF FeatEmptyGlueDeact(it, l) THEN {"emptydeact"} ELSE {}),
       complete |-> FALSE, allinf |-> FALSE, sshr |-> FALSE, noshr |-> FALSE, tstar |-> <<1, 0>>]
 
 \* ---- quantised observations (trace validation, Layout): logged lengths are within h/2 of the real ones -----------
